@@ -299,3 +299,15 @@ Theorem version_read_from_local_table_misses_other_shards :
   read_local s' (ins s k v st) k' = read_local s' st k'.
 Proof. exact local_read_misses. Qed.
 Print Assumptions version_read_from_local_table_misses_other_shards.
+
+(* A start through ANY host of the cluster (the host list with hosts 0 and j exchanged for the duration of the start)
+   on an up-to-date database, under any failures: no script statement, no version write, every host's catalogue and
+   the versions unchanged -- noop_when_current does not depend on the connected host. *)
+Theorem noop_when_current_through_any_host :
+  forall (scripts : stream -> list stmt) (oncl : stream -> list bool) (c : cfg) (j : nat) (os : list outcome) (d : db (ccat cat)),
+  (forall k, In k (streams_of c) -> List.length (cl_scripts scripts oncl c k) <= d_vers d k) ->
+  let m := fst (start_at scripts oncl c j os d) in
+  let d1 := snd (start_at scripts oncl c j os d) in
+  d_cat d1 = d_cat d /\ d_vers d1 = d_vers d /\ filter is_script_event (r_log m) = [].
+Proof. exact noop_through_any_host. Qed.
+Print Assumptions noop_when_current_through_any_host.
